@@ -170,8 +170,8 @@ class CbmcResult:
         self.steps = None
 
 
-def run_cbmc(goto, unwind, unwindset, timeout_s, mem_gb, out_json, trace=False):
-    cmd = list(CBMC_BASE) + ["--unwind", str(unwind)]
+def run_cbmc(goto, unwind, unwindset, timeout_s, mem_gb, out_json, trace=False, fs_array=512):
+    cmd = list(CBMC_BASE) + ["--unwind", str(unwind), "--max-field-sensitivity-array-size", str(fs_array)]
     if unwindset:
         cmd += ["--unwindset", ",".join(unwindset)]
     if trace:
